@@ -686,6 +686,141 @@ def parse_reinit(ltoks, itoks):
     return rows
 
 
+# ----------------------------------------------------------------------------- under which NAME is a child kind created?
+def parse_child_names(repo, ltoks, itoks):
+    """per (parent label, child label): the names under which the library's writers create such a node.
+    The cgi_new_node rows come from translators/c01_templates.py (function, parent label, name literal | not a literal,
+    label); a name that is not a literal is resolved here, inside the writer: `X->name` with strcpy(X->name, "lit") in the
+    same function -> that literal; the strcpy-label-and-cut-two-characters idiom of cg_model_write -> the label without
+    "_t"; a name copied into ->name by the cgi_*_address resolver the writer calls -> those literals; a parameter, or
+    strcpy(X->name, parameter) -> USER-CHOSEN.  Rows of cgi_write_* / cgi_read_* that pass a struct's name replay what a
+    writer stored and define nothing.  -> [CNames parent label (Some [names]) | CNames parent label None]"""
+    from translators import c01_templates
+    text, _ = c01_templates.translate(repo)
+    rows = re.findall(r'WRow \(s "([^"]+)"\) \(s "([^"]+)"\) (None|\(Some \(s "([^"]+)"\)\)) \(s "((?:[^"]|"")+)"\)', text)
+    fl, fi = functions(ltoks), functions(itoks)
+    vl, vi = vals(ltoks), vals(itoks)
+
+    def body(fn):
+        if fn in fl:
+            return ltoks, vl, fl[fn]
+        if fn in fi:
+            return itoks, vi, fi[fn]
+        return None
+
+    def name_copies(toks, v, b0, b1):
+        """(target expression text, source) for every strcpy / strncpy / snprintf into an expression ending in ->name"""
+        out = []
+        for j in range(b0, b1):
+            if v[j] in ("strcpy", "strncpy", "snprintf") and v[j + 1] == "(":
+                args, _ = split_args(toks, j + 1)
+                av = [vals(x) for x in args]
+                if av and av[0][-2:] == ["->", "name"]:
+                    src = av[-1] if v[j] == "snprintf" else av[1]
+                    out.append((" ".join(av[0]), src))
+        return out
+
+    def resolve(fn, label):
+        b = body(fn)
+        if b is None:
+            return None
+        toks, v, (b0, b1) = b
+        copies = name_copies(toks, v, b0, b1)
+        stem = any(v[j] == "strlen" and v[j + 4:j + 7] == ["-", "2", "]"] for j in range(b0, b1))     # N[strlen(L)-2] = 0
+        # the creation call(s) of this label in the function
+        exprs = []
+        for j in range(b0, b1):
+            if v[j] in ("cgi_new_node", "cgi_new_node_partial") and v[j + 1] == "(":
+                args, _ = split_args(toks, j + 1)
+                av = [vals(x) for x in args]
+                if len(av) > 2 and (av[2] == ['"%s"' % label] or (len(av[2]) == 1 and toks[j][0] == "id" and not av[2][0].startswith('"'))):
+                    exprs.append(av[1])
+        lits, user = set(), False
+        for e in exprs:
+            if len(e) == 1 and e[0].startswith('"'):
+                lits.add(e[0][1:-1]); continue
+            if len(e) == 1:
+                user = True; continue                              # a plain identifier: the caller's name
+            tgt = " ".join(e)
+            mine = [src for t, src in copies if t == tgt]
+            if not mine:                                             # set by the resolver the writer calls?
+                got = False
+                for j in range(b0, b1):
+                    if v[j].startswith("cgi_") and v[j].endswith("_address") and v[j] in fi:
+                        r0, r1 = fi[v[j]]
+                        for _, src in name_copies(itoks, vi, r0, r1):
+                            got = True
+                            if len(src) == 1 and src[0].startswith('"'):
+                                lits.add(src[0][1:-1])
+                            else:
+                                user = True
+                if got:
+                    continue
+                mine = [src for _, src in copies]                    # an alias (bcdata = dataset->dirichlet): every copy in the function
+            for src in mine:
+                if len(src) == 1 and src[0].startswith('"'):
+                    lits.add(src[0][1:-1])
+                elif stem:
+                    lits.add(label[:-2] if label.endswith("_t") else label)
+                else:
+                    user = True
+        if not exprs:
+            # created through a cgi_write_* helper: the struct's name as the writer stored it
+            for _, src in copies:
+                if len(src) == 1 and src[0].startswith('"'):
+                    lits.add(src[0][1:-1])
+                elif stem:
+                    lits.add(label[:-2] if label.endswith("_t") else label)
+                else:
+                    user = True
+            if not copies:
+                return None
+        if user or not lits:
+            return None if not user else "USER"
+        return sorted(lits)
+
+    table = {}
+    for fn, pl, nm, lit, label in rows:
+        label = label.replace('""', '"')
+        key = (pl, label)
+        if nm != "None":
+            table.setdefault(key, {"lits": set(), "user": False, "by": set()})["lits"].add(lit)
+            continue
+        if fn.startswith("cgi_write_") or fn.startswith("cgi_read_") or fn.startswith("cgi_get_"):
+            continue                                                 # replays a stored name
+        r = resolve(fn, label)
+        e = table.setdefault(key, {"lits": set(), "user": False, "by": set()})
+        if r is None or r == "USER":
+            e["user"] = True; e["by"].add(fn)
+        else:
+            e["lits"].update(r)
+    out = []
+    for (pl, label), e in sorted(table.items()):
+        if e["user"]:
+            out.append("CNames %s %s None" % (cs(pl), cs(label)))
+        else:
+            out.append("CNames %s %s (Some %s)" % (cs(pl), cs(label), clist([cs(x) for x in sorted(e["lits"])])))
+    return out
+
+
+def parse_reader_name_tests(itoks):
+    """the string literals a cgi_read_* function compares a node NAME with (strcmp(name-ish, "lit") / strcmp("lit", name-ish)):
+    children the reader itself tells apart by name (NormDefinitions, ReferenceStateDescription, ParentElements ...)"""
+    v = vals(itoks)
+    out = set()
+    for f, (b0, b1) in functions(itoks).items():
+        if not f.startswith("cgi_read_"):
+            continue
+        for j in range(b0, b1):
+            if v[j] in ("strcmp", "strncmp") and v[j + 1] == "(":
+                args, _ = split_args(itoks, j + 1)
+                av = [vals(x) for x in args[:2]]
+                for k in (0, 1):
+                    if len(av) == 2 and len(av[k]) == 1 and av[k][0].startswith('"') and "name" in " ".join(av[1 - k]).lower():
+                        out.add(av[k][0][1:-1])
+    return sorted(out)
+
+
 # ----------------------------------------------------------------------------- what is sorted on read
 def parse_sorting(itoks, ltoks):
     """every qsort call of cgns_internals.c as "function: count expression / comparator", the return expression of the
@@ -769,6 +904,12 @@ def translate(repo):
     out.append("")
     out.append("Definition reinit_rows : list rrow := [\n  %s\n]." % ";\n  ".join(
         guarded(lambda: parse_reinit(ltoks, itoks), lambda w: ["RRow " + cs("?") + " " + cs("?") + " " + cs(w) + " false []"])))
+    out.append("")
+    out.append("Definition child_names : list cnames := [\n  %s\n]." % ";\n  ".join(
+        guarded(lambda: parse_child_names(repo, ltoks, itoks), lambda w: ["CNamesUnparsed " + cs(w)])))
+    out.append("")
+    out.append("Definition reader_name_tests : list string := %s." % clist(
+        [cs(x) for x in guarded(lambda: parse_reader_name_tests(itoks), lambda w: [])], ";\n  "))
     out.append("")
     calls, cmp_text, callers = guarded(lambda: parse_sorting(itoks, ltoks), lambda w: ([w], "UNPARSED", []))
     out.append("Definition sort_calls : list string := %s." % clist([cs(c) for c in calls]))
